@@ -2517,6 +2517,7 @@ fn golden_oracle(ctx: &Ctx, g: &GoldenCase, case: &mut Case) -> Verdict {
 }
 
 pub fn run(ctx: &Ctx) {
+    run_fuzz_raw(ctx, fuzz_entry);
     ctx.rule(
         "roundtrip: recursive mirror trees of ds::Horizontal / ds::Vertical / discretionary lists (nesting <= 4, every node kind and field the language has syntax for) printed by three public paths and parsed back, compared with the library's PartialEq and strictly (glue ratios as exact rationals); \
          format_idempotent: the same trees rendered by an independent styled writer (blank lines, comments, any Unicode whitespace, positional vs keyword, reordered keywords, omitted defaults, omitted commas, sp units, long decimals, \\u{..} escapes); \
@@ -2553,4 +2554,11 @@ pub fn run(ctx: &Ctx) {
         let n = ctx.tier.pick(300_000u64, 5_000_000u64);
         run_generated(ctx, "parser_total", n, text_strategy, |t: &TextCase, case| text_oracle(ctx, t, case, None));
     }
+}
+
+
+/// Entry point shared by the libFuzzer target and the `fuzz_raw` replay sub-check.
+pub fn fuzz_entry(ctx: &Ctx, data: &[u8]) -> Verdict {
+    let t = TextCase { origin: "fuzz".to_string(), text: String::from_utf8_lossy(data).to_string() };
+    text_oracle(ctx, &t, &mut Case::default(), None)
 }
